@@ -293,12 +293,12 @@ func runText(c *lib.Ctx, sc *tscen) {
 	}
 	c.Hist(sc.stream+"_case", "model+oracle")
 	coqDefs := lib.List([]string{lib.Pair(lib.Str("//defs:d"), aspgen.CoqProg(pd))})
-	c.Case(lib.App("CAsp", "false", coqDefs, lib.List([]string{aspgen.CoqProg(pa), aspgen.CoqProg(pb)}), lib.List([]string{coqOutcome(ab["a"]), coqOutcome(ab["b"])})),
+	c.Case(cbase("CAsp", "false", coqDefs, lib.List([]string{aspgen.CoqProg(pa), aspgen.CoqProg(pb)}), lib.List([]string{coqOutcome(ab["a"]), coqOutcome(ab["b"])})),
 		map[string]any{"order": "a,b", "files": srcs, "a": ab["a"].Final, "b": ab["b"].Final, "errs": []string{ab["a"].Err, ab["b"].Err}}, "ab:"+key, true)
 	if sc.forced {
 		return
 	}
-	c.Case(lib.App("CAsp", "false", coqDefs, lib.List([]string{aspgen.CoqProg(pb), aspgen.CoqProg(pa)}), lib.List([]string{coqOutcome(ba["b"]), coqOutcome(ba["a"])})),
+	c.Case(cbase("CAsp", "false", coqDefs, lib.List([]string{aspgen.CoqProg(pb), aspgen.CoqProg(pa)}), lib.List([]string{coqOutcome(ba["b"]), coqOutcome(ba["a"])})),
 		map[string]any{"order": "b,a", "files": srcs, "a": ba["a"].Final, "b": ba["b"].Final, "errs": []string{ba["b"].Err, ba["a"].Err}}, "ba:"+key, true)
 }
 
